@@ -601,7 +601,7 @@ Qed.
 
 Section TlsProofs.
   Variable cert : Type.
-  Variable chains_to : pool -> cert -> bool.
+  Variable chains_to : ca_pool -> cert -> bool.
   Variable name_matches : cert -> list N -> bool.
   Variable time_valid : cert -> bool.
 
